@@ -830,7 +830,7 @@ fn corpus() -> Vec<(&'static str, Scenario, Vec<Label>)> {
         // buffered and acknowledged; the flush then reads last_wal_seq = 2 and persists it; crash
         (
             "k1-inflight-ack",
-            Scenario { flush_rows: 1, flush_bytes: big, max_bytes: big, max_segment: 1, writers: vec![vec![b(0, &[1])], vec![b(0, &[2])]] },
+            Scenario { flush_rows: 2, flush_bytes: big, max_bytes: big, max_segment: 1, writers: vec![vec![b(0, &[1, 2])], vec![b(0, &[3])]] },
             parse_sched("W0 W0 W0 W1 W1 W1 W0 W0 W0 W0 W0 W0 K R"),
         ),
         // K2: the flush of [w0.1, w0.2] fails at its PUT (batches dropped, w0.1 was acknowledged);
